@@ -182,6 +182,10 @@ def run_pairs(ctx, bases):
     for x in res:
         if isinstance(x, tuple) and x and x[0] == 'EXC':
             raise Machinery("driver failed: %s" % x[1])
+    slow = sum(1 for x in res if x['exc'] == 'HarnessTimeout')
+    ctx.coverage["runs_timed_out"] = ctx.coverage.get("runs_timed_out", 0) + slow
+    if slow > len(res) // 10:
+        raise Machinery("%d of %d backtests did not finish within %d s" % (slow, len(res), R.RUN_TIMEOUT))
     return [(res[2 * j], res[2 * j + 1]) for j in range(len(bases))]
 
 
